@@ -147,6 +147,9 @@ def run_ident_alphabet(prog, tier, repo):
             if short.startswith('is_ascii_'):
                 n_ascii += 1
                 res.ok(f'alphabet:{b.name}:{short}', b.loc(line), 'ASCII character class')
+            elif short in UNICODE_CLASSES and _reads_name_back(prog, b):
+                res.ok(f'alphabet:{b.name}:{short}', b.loc(line), 'Unicode class, but the name is read back by the parser before it is '
+                       'used: the lexer\'s own alphabet decides')
             elif short in UNICODE_CLASSES:
                 res.violation(f'alphabet:{b.name}:{short}', b.loc(line), f'{b.name} validates an identifier with the Unicode class '
                               f'`char::{short}`: names such as `naïve` or `x٣` pass the check, but the lexer only accepts '
@@ -196,3 +199,34 @@ def run_ident_alphabet(prog, tier, repo):
     res.floor('ASCII class tests in the rename entry point', n_ascii, 2)
     res.floor('rename entry points', n_entry, 1)
     return [res]
+
+
+def _reads_name_back(prog, b):
+    """the function hands a string parameter (or a trimmed view of it) to the parser before any call that applies a renaming"""
+    from .. import cfg as _cfg
+    applies = [bi for bi, bl in enumerate(b.blocks) if not bl.cleanup and bl.term[0] == 'call'
+               and (callee(bl.term)[1] or '').endswith('variable_definition::apply_renaming')]
+    strs = [i for i in range(1, b.nargs + 1) if b.locals[i].s in ('&str', '&std::string::String')]
+    parses = []
+    for bi, bl in enumerate(b.blocks):
+        t = bl.term
+        if bl.cleanup or t[0] != 'call' or not (callee(t)[1] or '').startswith('samlang_parser::'):
+            continue
+        for o in t[3]:
+            if o[0] not in ('c', 'm'):
+                continue
+            cur = o
+            for _ in range(5):
+                r, _p = operand_root(b, cur)
+                if r in strs:
+                    parses.append(bi)
+                    break
+                sd = single_def(b, r) if r is not None else None
+                if sd and sd[1] == 'term' and sd[2][3] and (callee(sd[2])[1] or '').split('::')[-1] in ('trim', 'trim_start', 'trim_end', 'as_str', 'deref', 'as_ref'):
+                    cur = sd[2][3][0]
+                    continue
+                break
+    if not applies or not parses:
+        return False
+    g = _cfg.cfg_of(b)
+    return all(g.nodes_dominate(parses, a) for a in applies)
